@@ -50,7 +50,7 @@ Variable ev ev' : env.
 
 Lemma sigs_rt_compose : forall bits sigs,
   layout_okb ev bits 0 sigs = true ->
-  (forall s, In s sigs -> load_sig now ev' (save_sig s) = Ok (sig_set_pos s 0)) ->
+  (forall s, In s sigs -> load_sig now ev' bits (save_sig s) = Ok (sig_set_pos s 0)) ->
   (forall s, In s sigs -> sig_size ev' s = sig_size ev s) ->
   (forall s, In s sigs -> u32_ok (sig_pos s) = true) ->
   NoDup (map sig_id sigs) ->
